@@ -9,6 +9,7 @@ from .. import terms as T
 from ..terms import P, op, Str, fname, CMP, NONE_T
 from ..interp import Interp
 from .fc import own_walk, calls, call_name, local_assignments
+from .fc import own_walk as own_walk_
 from .c05 import norm_est
 
 EST = "wavespectra.estimators."
@@ -346,6 +347,29 @@ def run(ctx):
         numerics = p.const_global(mod, "NUMERICS")
     except Exception:
         numerics = {}
+    # sibling defaults: the settings the solver uses when called without a configuration (config is None) and the module-level
+    # defaults the public entry points pass in are two spellings of one table; they must agree key by key
+    builtin = {}
+    for n_ in own_walk_(fs.node):
+        if isinstance(n_, ast.If) and ast.unparse(n_.test).replace(" ", "") in ("configisNone", "config==None"):
+            for st_ in n_.body:
+                if isinstance(st_, ast.Assign) and len(st_.targets) == 1 and isinstance(st_.targets[0], ast.Name) \
+                        and isinstance(st_.value, ast.Constant):
+                    builtin[st_.targets[0].id] = st_.value.value
+            # the else branch says which key each local is read from
+            keymap = {}
+            for st_ in n_.orelse:
+                if isinstance(st_, ast.Assign) and len(st_.targets) == 1 and isinstance(st_.targets[0], ast.Name):
+                    ks = [x.slice.value for x in ast.walk(st_.value) if isinstance(x, ast.Subscript) and isinstance(x.slice, ast.Constant)
+                          and isinstance(x.slice.value, str) and ast.unparse(x.value) == "config"]
+                    if len(ks) == 1:
+                        keymap[st_.targets[0].id] = ks[0]
+            disagree = {keymap[k]: (v, numerics.get(keymap[k])) for k, v in builtin.items()
+                        if k in keymap and keymap[k] in numerics and numerics.get(keymap[k]) != v}
+            ctx.expect(not disagree if (builtin and keymap) else None, "R06.3", "NUMERICS[same as the solver's built-in settings]",
+                       "every numerical setting has the same default whether the solver is reached through the public entry points "
+                       "(module table) or called without a configuration (built-in values)", fs.loc(n_),
+                       derived=str(disagree) if disagree else f"{len(builtin)} settings compared")
     ctx.expect(numerics.get("atol") == 0.01 and numerics.get("max_iter") == 100, "R06.3", "NUMERICS[defaults]",
                "module defaults agree with the in-kernel defaults (atol 0.01, 100 iterations)", "src/ocean_science_utilities/wavespectra/estimators/mem2.py",
                derived=str({k: numerics.get(k) for k in ("atol", "max_iter")}))
@@ -467,6 +491,6 @@ def run(ctx):
     ctx.require_count("R06.6", 3)
     ctx.require_count("R06.1", 8)
     ctx.require_count("R06.2", 20)
-    ctx.require_count("R06.3", 4)
+    ctx.require_count("R06.3", 5)
     ctx.require_count("R06.4", 3)
     ctx.require_count("R06.5", 3)
